@@ -148,7 +148,10 @@ theorem rel_step {s s' : St} {v : View} (h : Rel s v) {e : Ev} (hs : step s e = 
           have hlt : s.read < s.sent := by
             -- a line is handed out only when an unread complete line exists
             by_cases hg : s.gone = true
-            · simp [allowed, hg] at ha
+            · simp only [allowed, hg, if_true] at ha
+              split at ha
+              · next hc => simp only [Bool.and_eq_true, decide_eq_true_eq] at hc; exact hc.1
+              · simp at ha
             · have hg' : s.gone = false := by simpa using hg
               simp only [allowed, hg', Bool.false_eq_true, if_false] at ha
               by_cases he : s.eof = true
@@ -218,7 +221,15 @@ theorem contract_of_run : ∀ (evs : List Ev) (s s' : St) (v : View) (i : Nat), 
 theorem line_allowed {s : St} {n : Nat} (ha : (allowed s .readline).contains (.line n) = true) :
     n = s.read ∧ s.read < s.sent := by
   by_cases hg : s.gone = true
-  · simp [allowed, hg] at ha
+  · simp only [allowed, hg, if_true] at ha
+    split at ha
+    · next hc =>
+      simp only [Bool.and_eq_true, decide_eq_true_eq] at hc
+      simp only [List.contains_cons, List.contains_nil, Bool.or_false, Bool.or_eq_true, beq_iff_eq] at ha
+      rcases ha with ha | ha
+      · cases ha
+      · cases ha; exact ⟨rfl, hc.1⟩
+    · simp at ha
   · have hg' : s.gone = false := by simpa using hg
     simp only [allowed, hg', Bool.false_eq_true, if_false] at ha
     by_cases he : s.eof = true
